@@ -142,9 +142,10 @@ class ShortReadStream(io.RawIOBase):
     """Raw stream without fileno whose read(n)/readinto hand out random non-empty pieces shorter than requested
     before EOF (seeded from the case).  `seekable=False`: tell()/seek() raise like a pipe's."""
 
-    def __init__(self, data: bytes, seed: int, maxpiece: int, seekable: bool):
+    def __init__(self, data: bytes, seed: int, maxpiece: int, seekable: bool, fault=None, on_cancel=None):
         super().__init__()
         self._data, self._pos, self._rng, self._max, self._seekable = data, 0, random.Random(seed), max(1, maxpiece), seekable
+        self._fault, self._on_cancel = fault, on_cancel
 
     def readable(self):
         return True
@@ -165,12 +166,25 @@ class ShortReadStream(io.RawIOBase):
 
     def readinto(self, b):
         left = len(self._data) - self._pos
+        if self._fault is not None and self._pos >= self._fault["after"]:
+            raise make_fault(self._fault["exc"])
         if left <= 0 or len(b) == 0:
             return 0
         n = min(len(b), left, self._rng.randint(1, self._max))
+        if self._fault is not None:
+            n = min(n, max(1, self._fault["after"] - self._pos))
         b[:n] = self._data[self._pos:self._pos + n]
         self._pos += n
         return n
+
+
+def make_fault(name):
+    """The exception a failing body source raises."""
+    if name == "OSError":
+        return OSError(5, "Input/output error (injected)")
+    if name == "OSError-noerrno":
+        return OSError("injected")
+    return {"RuntimeError": RuntimeError, "ValueError": ValueError, "KeyError": KeyError}[name]("injected body source failure")
 
 
 def short_stream(b, seekable):
@@ -178,7 +192,7 @@ def short_stream(b, seekable):
     maxpiece = b.get("maxpiece", 4096)
     if b["size"] // maxpiece > 3000:
         maxpiece = b["size"] // 3000 + 1
-    return ShortReadStream(raw, b["seed"], maxpiece, seekable)
+    return ShortReadStream(raw, b["seed"], maxpiece, seekable, fault=b.get("fault"))
 
 
 def pipe_stream(b, cleanups):
@@ -678,10 +692,26 @@ class Bed:
                 kw["data"] = open(self.file_for(b["pat"], b["size"], b["seed"]), "rb")
             else:
                 ps = pieces_of(raw, b.get("pieces") or [len(raw)])
+                fault = b.get("fault")
+                bed = self
 
                 async def agen():
-                    for p in ps:
+                    for i, p in enumerate(ps):
+                        if fault is not None and i == fault["after"]:
+                            if fault["exc"] == "cancel":
+                                bed.req_task.cancel()
+                                await asyncio.sleep(0)
+                                await asyncio.sleep(0)
+                            else:
+                                raise make_fault(fault["exc"])
                         yield p
+                    if fault is not None and fault["after"] >= len(ps):
+                        if fault["exc"] == "cancel":
+                            bed.req_task.cancel()
+                            await asyncio.sleep(0)
+                            await asyncio.sleep(0)
+                        else:
+                            raise make_fault(fault["exc"])
                 kw["data"] = agen()
         elif k in ("rawio", "rawio_unseek"):
             kw["data"] = short_stream(b, k == "rawio")
@@ -764,33 +794,48 @@ class Bed:
         try:
             cl["url_target"] = url.with_fragment(None).extend_query(kw.get("params") or ()).raw_path_qs
             cl["host_header"] = url.host_port_subcomponent
+            async def do_request():
+                cl["stage"] = "request"
+                async with session.request(rq["method"], url, **kw) as resp:
+                    cl["stage"] = "body"
+                    cl.update(status=resp.status, reason=resp.reason,
+                              version=f"{resp.version.major}.{resp.version.minor}",
+                              headers=[[k.decode("utf-8", "surrogateescape"), v.decode("utf-8", "surrogateescape")] for k, v in resp.raw_headers],
+                              cookies={k: m.value for k, m in resp.cookies.items()})
+                    mode = case.get("cread", "read")
+                    if mode == "read":
+                        cl["body"] = await resp.read()
+                    elif mode == "iter":
+                        n = case.get("cread_n", 0)
+                        it = resp.content.iter_chunked(n) if n else resp.content.iter_any()
+                        parts = []
+                        async for ch in it:
+                            parts.append(ch)
+                        cl["body"] = b"".join(parts)
+                    elif mode == "none":
+                        pass
+                    cl["stage"] = "done"
+
+            self.req_task = self.loop.create_task(do_request())
             try:
                 async with asyncio.timeout(HANG):
-                    cl["stage"] = "request"
-                    async with session.request(rq["method"], url, **kw) as resp:
-                        cl["stage"] = "body"
-                        cl.update(status=resp.status, reason=resp.reason,
-                                  version=f"{resp.version.major}.{resp.version.minor}",
-                                  headers=[[k.decode("utf-8", "surrogateescape"), v.decode("utf-8", "surrogateescape")] for k, v in resp.raw_headers],
-                                  cookies={k: m.value for k, m in resp.cookies.items()})
-                        mode = case.get("cread", "read")
-                        if mode == "read":
-                            cl["body"] = await resp.read()
-                        elif mode == "iter":
-                            n = case.get("cread_n", 0)
-                            it = resp.content.iter_chunked(n) if n else resp.content.iter_any()
-                            parts = []
-                            async for ch in it:
-                                parts.append(ch)
-                            cl["body"] = b"".join(parts)
-                        elif mode == "none":
-                            pass
-                        cl["stage"] = "done"
+                    await self.req_task
             except TimeoutError:
                 cl["hang"] = cl.get("stage")
+            except asyncio.CancelledError:
+                if not self.req_task.cancelled():
+                    raise
+                cl["exc"] = "CancelledError"
+                cl["exc_text"] = "request task cancelled"
             except Exception as e:  # noqa
                 cl["exc"] = type(e).__name__
                 cl["exc_text"] = str(e)[:300]
+            if not self.req_task.done():
+                self.req_task.cancel()
+                try:
+                    await self.req_task
+                except BaseException:  # noqa
+                    pass
             cl["elapsed"] = self.loop.time() - t0
             # the client's decision, taken when the response was complete (before the peer's close can arrive)
             cl["pooled0"] = bool(conns) and any(p.transport is conns[0][0] and p.is_connected()
@@ -946,12 +991,51 @@ def multi_get(pairs, name):
     return [v for k, v in pairs if k.lower() == n]
 
 
+def req_fault(case):
+    return (case["req"].get("body") or {}).get("fault")
+
+
+def oracle_fault(case, out):
+    """The request body source fails (or the request is cancelled) while the body is being sent: both ends must
+    agree that the message is NOT complete - the handler must not be handed a complete body, the connection must
+    not be kept, and the session must stay usable."""
+    bad = []
+    rq, rs = case["req"], case["resp"]
+    cl, sv = out["client"], out["server"]
+    if "hang" in cl:
+        return [("hang", f"no completion within {HANG:.0f} virtual seconds after the body source failed; client stage={cl['hang']}")]
+    reads = rs.get("read", "read") != "none"
+    if sv.get("calls", 0) > 1:
+        bad.append(("handler-calls", f"handler called {sv.get('calls')} times"))
+    if reads and sv.get("read_done"):
+        got = sv.get("body")
+        bad.append(("truncated-body-accepted",
+                    f"the body source failed ({req_fault(case)}) and the client reported "
+                    f"{cl.get('exc') or 'status ' + str(cl.get('status'))}, but the handler was handed a COMPLETE body"
+                    + ("" if got is None else f" of {len(got)} bytes (the source had {rq['body']['size']})")))
+    if reads and "exc" not in cl:
+        bad.append(("fault-swallowed", f"the body source failed but the caller got status {cl.get('status')} and no exception"))
+    ka = cl.get("ka") or {}
+    if ka.get("client_open") or ka.get("server_open") or cl.get("pooled0"):
+        bad.append(("keepalive-disagree", f"a connection carrying a half-sent request was kept: {ka}"))
+    if ka.get("acquired"):
+        bad.append(("leak", "the connector still counts the connection as acquired"))
+    sec = cl.get("second") or {}
+    if sec.get("hang") or "exc" in sec or sec.get("status") != 200 or sec.get("body") != b"second":
+        bad.append(("second-response", f"the follow-up request on the same session failed: {sec}"))
+    if out["loop_exceptions"]:
+        bad.append(("loop-exception", out["loop_exceptions"][0][:300]))
+    return bad
+
+
 def oracle(case, out):
     """-> list of (kind, message).  Empty list: the exchange satisfies the property."""
     bad = []
     rq, rs = case["req"], case["resp"]
     cl, sv = out["client"], out["server"]
     expect = case.get("expect") or {}
+    if req_fault(case):
+        return oracle_fault(case, out)
     if "build_exc" in cl:
         if expect.get("client_exc") and cl["build_exc"].startswith(expect["client_exc"]):
             return bad
@@ -1326,6 +1410,12 @@ def gen_req(rng):
             if k in STREAM_KINDS:
                 b["size"] = max(1, b["size"]) if rng.random() < 0.7 else rng.choice((65536, 131072, 200000, 262144, 300000))
                 b["maxpiece"] = rng.choice((1, 7, 100, 4096, 65536, 300000))
+            # a body source that fails (or a request that is cancelled) part of the way
+            if k == "agen" and rng.random() < 0.12:
+                b["fault"] = {"after": rng.randint(0, len(b["pieces"])),
+                              "exc": rng.choice(("OSError", "OSError-noerrno", "RuntimeError", "ValueError", "cancel"))}
+            elif k in ("rawio", "rawio_unseek") and rng.random() < 0.2:
+                b["fault"] = {"after": rng.randint(0, b["size"]), "exc": rng.choice(("OSError", "OSError-noerrno", "RuntimeError", "KeyError"))}
         rq["body"] = b
         if k in ("form", "multipart", "json"):
             rq["headers"] = [h for h in rq["headers"] if h[0].lower() != "content-type"]
@@ -1336,7 +1426,7 @@ def gen_req(rng):
         if k in ("bytes", "str", "agen", "bytesio", "bytearray") and rng.random() < 0.15 and rq.get("chunked") is None:
             if b.get("size", 1) > 0:
                 rq["compress"] = rng.choice(("deflate", "gzip", True))
-        if rng.random() < 0.12:
+        if rng.random() < 0.12 and not b.get("fault"):
             rq["expect100"] = True
     elif rng.random() < 0.03:
         rq["expect100"] = True
@@ -1497,10 +1587,12 @@ def check_case(ctx, bed, case, counts=True):
     bad = oracle(case, out)
     cl, sv = out["client"], out["server"]
     refused = bool(case.get("expect")) or "build_exc" in cl
+    if req_fault(case):
+        ctx.count("req.fault:" + req_fault(case)["exc"])
     canon = (sv.get("method"), sv.get("raw_path"), tuple(map(tuple, sv.get("headers", []))), _h(sv.get("body")),
              cl.get("status"), cl.get("reason"), tuple(map(tuple, cl.get("headers", []))), _h(cl.get("body")),
              str(cl.get("ka")))
-    ctx.case(canon, nontrivial=not refused and not bad and "status" in cl)
+    ctx.case(canon, nontrivial=not refused and not bad and ("status" in cl or bool(req_fault(case))))
     if counts:
         rq, rs = case["req"], case["resp"]
         ctx.count("method:" + rq["method"].upper()[:10])
@@ -1610,7 +1702,7 @@ def in_model_subset(case):
     generator pieces; no cookies, compression, Expect, skip_auto_headers; chunked None or True."""
     rq = case["req"]
     b = rq.get("body") or {"kind": "none"}
-    if rq.get("compress") or rq.get("expect100") or rq.get("cookies") or rq.get("skip_auto"):
+    if rq.get("compress") or rq.get("expect100") or rq.get("cookies") or rq.get("skip_auto") or b.get("fault"):
         return False
     if b["kind"] not in ("none", "bytes", "bytearray", "memoryview", "agen", "bytesio"):
         return False
@@ -1709,7 +1801,7 @@ def in_resp_subset(case):
     """Responses Model/WireResp.v decides about: StreamResponse with or without a declared length, optional
     enable_chunked_encoding / force_close; no compression; the exchange ran to completion on both sides."""
     rq, rs = case["req"], case["resp"]
-    if rs["kind"] != "stream" or rs.get("compression") or case.get("expect") or rq.get("expect100"):
+    if rs["kind"] != "stream" or rs.get("compression") or case.get("expect") or rq.get("expect100") or req_fault(case):
         return False
     if case.get("cread", "read") == "none":
         return False
